@@ -1,0 +1,14 @@
+//go:build verif
+// +build verif
+
+package hls
+
+import "bytes"
+
+// VerifAddSegment appends a finished in-memory segment to the playlist (build tag verif
+// only), so that the harness can serve playlists and segments of a stream without
+// feeding it seconds of media.
+func (pl *Playlist) VerifAddSegment(seq int, duration float64, uri string, data []byte) {
+	mf := &memorySegmentFile{file: bytes.NewBuffer(append([]byte(nil), data...))}
+	pl.addSegment(&segment{duration: duration, sequenceNo: seq, uri: uri, file: mf})
+}
